@@ -111,12 +111,15 @@ class FormulaEvaluator(Generic[QuantityT]):
                 f"Some resampled metrics didn't arrive, for formula: {self._name}"
             )
 
-        if self._first_run:
+        timestamps = {
+            res.timestamp for task in ready_metrics if (res := task.result()) is not None
+        }
+        if self._first_run or len(timestamps) > 1:
+            # Besides the first run, inputs can get out of sync when a fetcher
+            # switches to its fallback stream after its primary stream failed.
             metric_ts = await self._synchronize_metric_timestamps(ready_metrics)
         else:
-            sample = next(iter(ready_metrics)).result()
-            assert sample is not None
-            metric_ts = sample.timestamp
+            metric_ts = timestamps.pop()
 
         for step in self._steps:
             step.apply(eval_stack)
